@@ -325,3 +325,20 @@ Theorem C03_search_model_is_an_instance :
     bisect F fuel q prec a b i = t_bisect F ltq ltq Qminus fuel q prec a b i.
 Proof. move=> F fuel q ef prec a b i ltq; split; [exact: expand_is_instance | exact: bisect_is_instance]. Qed.
 Print Assumptions C03_search_model_is_an_instance.
+
+Theorem C03_distributions_py_quantile_within_precision :
+  forall (expm : seq (seq R) -> seq (seq R)),
+    (forall n A, wf n n A -> wf n n (expm A) /\ mx_of n n (expm A) = mexp (mx_of n n A)) ->
+  forall n Ss Slast alpha e q ef prec max_iter b1 i1 a2 b2 i2,
+    all_wf n Ss -> wf n n Slast -> size e = n -> epochs_wf (seq (seq R)) 0%QQ Ss -> (1 <= ef)%QQ ->
+    let F := cdf_at expm Ss Slast alpha e in
+    let ltRQ := fun (x : R) (q : Q) => if Rlt_dec x (Q2R q) then true else false in
+    let ltQR := fun (q : Q) (x : R) => if Rlt_dec (Q2R q) x then true else false in
+    (forall a b, (0 <= a)%QQ -> (a <= b)%QQ -> Rle (F a) (F b)) ->
+    t_expand F ltRQ (max_iter - 0) q ef (inject_Z 1) 0 = (b1, i1) ->
+    t_bisect F ltRQ ltQR Rminus (max_iter - i1) q prec (inject_Z 0) b1 i1 = (a2, b2, i2) ->
+    (0 <= b1)%QQ -> Rlt (F 0%QQ) (Q2R q) -> Rle (Q2R q) (F b1) -> (i1 <= max_iter)%coq_nat -> (i2 < max_iter)%coq_nat ->
+    Rle (Rabs (Rminus (F (TreeHeightDistribution_quantile OpsR expm ltRQ ltQR n alpha e (pos_of Slast Ss).1 (pos_of Slast Ss).2 q ef prec max_iter))
+                      (Q2R q))) (Q2R prec).
+Proof. exact @source_quantile_within_precision. Qed.
+Print Assumptions C03_distributions_py_quantile_within_precision.
